@@ -626,6 +626,44 @@ func init() {
 		}
 		return nil
 	})
+	// Four more wire forms the generator never writes because the library's option / parameter
+	// structs have no value for them (each a known finding; the probe is the failing input):
+	optRoundTrip := func(what string, opt []byte) error {
+		// root owner, OPT, UDP size 1232, TTL 0, RDLENGTH, option
+		w := append([]byte{0, 0, 41, 4, 208, 0, 0, 0, 0, 0, byte(len(opt))}, opt...)
+		rr, _, err := dns.UnpackRR(w, 0)
+		if err != nil {
+			return pbt.Errf("%s (OPT RDATA %x) is refused by the decoder: %v", what, opt, err)
+		}
+		buf := make([]byte, 128)
+		n, err := dns.PackRR(rr, buf, 0, nil, false)
+		if err != nil || !bytes.Equal(buf[:n], w) {
+			return pbt.Errf("%s (OPT RDATA %x) re-packs as %x (err=%v)", what, opt, buf[min(n, 11):n], err)
+		}
+		return nil
+	}
+	pbt.Probe("keepalive-zero-timeout", func() error {
+		return optRoundTrip("edns-tcp-keepalive with an explicit TIMEOUT of 0 (RFC 7828 3.1/3.4: the server asks the client to close the connection)", []byte{0, 11, 0, 2, 0, 0})
+	})
+	pbt.Probe("ul-zero-key-lease", func() error {
+		return optRoundTrip("Update Lease in its 8-octet form with KEY-LEASE 0", []byte{0, 2, 0, 8, 0, 0, 0, 60, 0, 0, 0, 0})
+	})
+	pbt.Probe("zoneversion-empty", func() error {
+		return optRoundTrip("ZONEVERSION with OPTION-LENGTH 0 (the query form of RFC 9660 section 2)", []byte{0, 19, 0, 0})
+	})
+	pbt.Probe("ipv6hint-v4-mapped", func() error {
+		w := append([]byte{1, 'a', 0, 0, 64, 0, 1, 0, 0, 0, 5, 0, 23, 0, 1, 0, 0, 6, 0, 16}, 0, 0, 0, 0, 0, 0, 0, 0, 0, 0, 0xff, 0xff, 1, 2, 3, 4)
+		rr, _, err := dns.UnpackRR(w, 0)
+		if err != nil {
+			return pbt.Errf("SVCB ipv6hint holding the 16 octets ::ffff:1.2.3.4 is refused by the decoder: %v", err)
+		}
+		buf := make([]byte, 128)
+		n, err := dns.PackRR(rr, buf, 0, nil, false)
+		if err != nil || !bytes.Equal(buf[:n], w) {
+			return pbt.Errf("SVCB ipv6hint ::ffff:1.2.3.4 re-packs as %x (err=%v)", buf[:n], err)
+		}
+		return nil
+	})
 	pbt.Probe("amtrelay-dbit", func() error {
 		return checkRR(rrCase{R: wm.Rec{Name: wm.MustName("a."), Type: wm.TAMTRELAY, Class: 1, Fields: []wm.Field{
 			{K: wm.U8, U: 10}, {K: wm.U8, U: 0x81}, {K: wm.GW, U: 1, B: []byte{192, 0, 2, 1}}}}})
